@@ -58,7 +58,12 @@ type Explorer struct {
 	args      []value
 	opts      ExploreOpts
 	mu        sync.Mutex
-	cond      *sync.Cond
+	wg          sync.WaitGroup
+	workers     int
+	idleSpawned int
+	nextWid     int
+	parked      []*Machine
+	incomplete  string
 	work      []workItem
 	active    int
 	stopped   bool
@@ -324,41 +329,110 @@ func (m *Machine) newNondet(label string, w int) *Term {
 	return t
 }
 
+// Global pool of CPU tokens shared by all concurrently running explorations: a job grows to as many
+// workers as it has pending paths and tokens are free, and shrinks when its queue is empty.
+var cpuTokens = make(chan struct{}, 64)
+
+func initCPUTokens(n int) {
+	for len(cpuTokens) > 0 {
+		<-cpuTokens
+	}
+	for i := 0; i < n; i++ {
+		cpuTokens <- struct{}{}
+	}
+}
+
 func (ex *Explorer) push(w workItem) {
 	ex.mu.Lock()
 	ex.work = append(ex.work, w)
 	ex.mu.Unlock()
-	ex.cond.Signal()
+	ex.maybeSpawn()
 }
 
-func (ex *Explorer) pop() (workItem, bool) {
+// maybeSpawn starts another worker if there is pending work and a free CPU token.
+func (ex *Explorer) maybeSpawn() {
 	ex.mu.Lock()
-	defer ex.mu.Unlock()
-	for {
-		if ex.stopped {
-			return workItem{}, false
-		}
-		if n := len(ex.work); n > 0 {
-			w := ex.work[n-1]
-			ex.work = ex.work[:n-1]
-			ex.active++
-			return w, true
-		}
-		if ex.active == 0 {
-			ex.cond.Broadcast()
-			return workItem{}, false
-		}
-		ex.cond.Wait()
+	if ex.stopped || len(ex.work) == 0 || ex.workers >= ex.opts.Workers || len(ex.work) <= ex.idleSpawned {
+		ex.mu.Unlock()
+		return
 	}
+	select {
+	case <-cpuTokens:
+	default:
+		ex.mu.Unlock()
+		return
+	}
+	ex.workers++
+	ex.idleSpawned++
+	wid := ex.nextWid
+	ex.nextWid++
+	ex.wg.Add(1)
+	ex.mu.Unlock()
+	go ex.worker(wid)
 }
 
-func (ex *Explorer) done() {
+func (ex *Explorer) worker(wid int) {
+	defer ex.wg.Done()
+	defer func() {
+		cpuTokens <- struct{}{}
+		ex.mu.Lock()
+		ex.workers--
+		ex.mu.Unlock()
+	}()
+	var m *Machine
+	// reuse an idle machine (solver process + initialised globals) if one is parked
 	ex.mu.Lock()
-	ex.active--
-	if ex.active == 0 && len(ex.work) == 0 {
-		ex.cond.Broadcast()
+	if n := len(ex.parked); n > 0 {
+		m = ex.parked[n-1]
+		ex.parked = ex.parked[:n-1]
 	}
 	ex.mu.Unlock()
+	if m == nil {
+		var err error
+		m, err = newMachine(ex.prog, ex, wid)
+		if err != nil {
+			ex.mu.Lock()
+			ex.incomplete = "worker start failed: " + err.Error()
+			ex.idleSpawned--
+			ex.stopped = true
+			ex.mu.Unlock()
+			return
+		}
+	}
+	first := true
+	for {
+		ex.mu.Lock()
+		if first {
+			ex.idleSpawned--
+			first = false
+		}
+		if ex.stopped || len(ex.work) == 0 {
+			ex.parked = append(ex.parked, m)
+			ex.mu.Unlock()
+			return
+		}
+		n := len(ex.work)
+		item := ex.work[n-1]
+		ex.work = ex.work[:n-1]
+		ex.mu.Unlock()
+		out := m.runPath(item)
+		ex.record(m, out)
+		if m.sol.broken {
+			ex.mu.Lock()
+			ex.incomplete = "solver process died"
+			ex.stopped = true
+			ex.mu.Unlock()
+			m.sol.Close()
+			return
+		}
+		if !ex.opts.Deadline.IsZero() && time.Now().After(ex.opts.Deadline) {
+			ex.mu.Lock()
+			ex.incomplete = "deadline reached"
+			ex.stopped = true
+			ex.mu.Unlock()
+		}
+		ex.maybeSpawn()
+	}
 }
 
 type ExploreResult struct {
@@ -385,53 +459,47 @@ type ExploreResult struct {
 
 func Explore(prog *ssa.Program, entry *ssa.Function, args []value, opts ExploreOpts) *ExploreResult {
 	ex := &Explorer{prog: prog, entry: entry, args: args, opts: opts, counts: map[string]int64{}, reach: map[string]int64{}, funcs: map[*ssa.Function]bool{}, globalW: map[string]int64{}, frozenW: map[string]int64{}, stubs: map[string]int64{}}
-	ex.cond = sync.NewCond(&ex.mu)
-	ex.work = []workItem{{prefix: nil, model: Model{}}}
-	start := time.Now()
-	var wg sync.WaitGroup
-	incomplete := ""
-	var incMu sync.Mutex
-	for w := 0; w < opts.Workers; w++ {
-		wg.Add(1)
-		go func(wid int) {
-			defer wg.Done()
-			m, err := newMachine(prog, ex, wid)
-			if err != nil {
-				incMu.Lock()
-				incomplete = "worker start failed: " + err.Error()
-				incMu.Unlock()
-				return
-			}
-			defer m.sol.Close()
-			for {
-				item, ok := ex.pop()
-				if !ok {
-					return
-				}
-				out := m.runPath(item)
-				ex.record(m, out)
-				ex.done()
-				if m.sol.broken {
-					incMu.Lock()
-					incomplete = "solver process died"
-					incMu.Unlock()
-					ex.stop()
-					return
-				}
-				if !opts.Deadline.IsZero() && time.Now().After(opts.Deadline) {
-					incMu.Lock()
-					incomplete = "deadline reached"
-					incMu.Unlock()
-					ex.stop()
-					return
-				}
-			}
-		}(w)
+	if ex.opts.Workers <= 0 {
+		ex.opts.Workers = 16
 	}
-	wg.Wait()
+	start := time.Now()
+	// the first worker is started with a blocking token acquisition so that every job makes progress
+	<-cpuTokens
+	ex.mu.Lock()
+	ex.work = []workItem{{prefix: nil, model: Model{}}}
+	ex.workers++
+	ex.idleSpawned++
+	ex.nextWid++
+	ex.wg.Add(1)
+	ex.mu.Unlock()
+	go ex.worker(0)
+	// wait until no worker is running and the queue is empty (workers re-spawn on push)
+	for {
+		ex.wg.Wait()
+		ex.mu.Lock()
+		done := ex.workers == 0 && (len(ex.work) == 0 || ex.stopped)
+		ex.mu.Unlock()
+		if done {
+			break
+		}
+		// work left but all workers exited (race between exit and push): restart one
+		<-cpuTokens
+		ex.mu.Lock()
+		ex.workers++
+		ex.idleSpawned++
+		wid := ex.nextWid
+		ex.nextWid++
+		ex.wg.Add(1)
+		ex.mu.Unlock()
+		go ex.worker(wid)
+	}
+	for _, m := range ex.parked {
+		m.sol.Close()
+	}
 	res := &ExploreResult{Paths: ex.paths, Counts: ex.counts, Reach: ex.reach, Outcomes: ex.outcomes, Samples: ex.samples, Decisions: ex.decisions, Steps: ex.steps, MaxSteps: ex.maxSteps, Solver: ex.solver, Unknowns: ex.unknowns, GlobalW: ex.globalW, FrozenW: ex.frozenW, Stubs: ex.stubs}
 	res.WallS = time.Since(start).Seconds()
 	res.Ret = ex.lastRet
+	incomplete := ex.incomplete
 	if ex.stopped && incomplete == "" {
 		incomplete = "stopped early (path or failure limit)"
 	}
@@ -450,7 +518,6 @@ func (ex *Explorer) stop() {
 	ex.mu.Lock()
 	ex.stopped = true
 	ex.mu.Unlock()
-	ex.cond.Broadcast()
 }
 
 func (ex *Explorer) record(m *Machine, out Outcome) {
@@ -501,12 +568,10 @@ func (ex *Explorer) record(m *Machine, out Outcome) {
 		nf := ex.counts["fail"] + ex.counts["panic"]
 		if ex.opts.MaxFailures > 0 && nf >= int64(ex.opts.MaxFailures) {
 			ex.stopped = true
-			ex.cond.Broadcast()
 		}
 	}
 	if ex.opts.MaxPaths > 0 && ex.paths >= ex.opts.MaxPaths {
 		ex.stopped = true
-		ex.cond.Broadcast()
 	}
 }
 
